@@ -296,7 +296,7 @@ def random_polygon(rng, num, center=(0, 0), size=10.0, family=None, cw=False):
 # ----------------------------------------------------------------------------------
 
 
-def blob_segments(rng, nseg, degree, center, rmin, rmax, mixed=False, coincident=False):
+def blob_segments(rng, nseg, degree, center, rmin, rmax, mixed=False, coincident=False, bulge=1.25):
     """Closed chain of Bezier segments, star-shaped about center by construction:
     every control polygon is angularly monotone inside its own sector (< 180 degrees),
     so by variation diminishing each ray from the center meets the curve once."""
@@ -324,7 +324,7 @@ def blob_segments(rng, nseg, degree, center, rmin, rmax, mixed=False, coincident
         for k in range(1, deg):
             ang = a0 + (a1 - a0) * k / deg
             # keep inner control points outside the chord to have a bulge, bounded
-            r = rng.uniform(0.9, 1.25) * max(radii[i], radii[i + 1])
+            r = rng.uniform(0.9, bulge) * max(radii[i], radii[i + 1])
             pts.append(at(ang, r))
         pts.append(junctions[i + 1])
         if coincident and deg == 3 and rng.random() < 0.6:
